@@ -1,7 +1,7 @@
 /-
 Line-protocol driver for the C04 model (Model/Rollup.lean).
 
-  cfg <src> <day> <h,h,..> | <tgt> <tgt> ...
+  cfg <src> <day,day,..> <code,code,..> | <tgt> <tgt> ...   (family code = dayIndex*100 + hour)
   loc <h> <tgt>
   flush <h> <file> <nonEmpty> | <metric>/<start>/<end>/<series>.<field>.<ftype>.<slot>.<val>,... ...
   rollup <h> ivs=<a,b|-> dvs=<a,b|-> avail=<a,b|-> cut=<n|->
@@ -20,12 +20,23 @@ open LinVerif LinVerif.Rollup
 structure DS where
   src : Int := 0
   day : Int := 0
+  /-- day numbers of the source stores; a source family is coded `dayIndex * 100 + hour` -/
+  days : List Int := []
   tgts : List Nat := []
   st : St := St.init
   files : List (Key × FileData) := []
   /-- committed target outputs: (interval, output of the merge) -/
-  tfiles : List (Iv × FileData) := []
+  tfiles : List ((Iv × String) × FileData) := []
   dead : Bool := false
+
+/-- segment time of the source store of family code `c` -/
+def DS.segOf (d : DS) (c : Nat) : Int := (d.days.getD (c / 100) d.day) * oneDay
+def hourOf (c : Nat) : Int := ((c % 100 : Nat) : Int)
+def DS.rOf (d : DS) (c : Nat) (tgt : Int) : R := mkR stdCal d.src tgt (d.segOf c) (hourOf c)
+/-- `<target segment time>/<target family>`: where the rollup of family `c` writes for `tgt` -/
+def DS.locKey (d : DS) (c : Nat) (tgt : Int) : String :=
+  let l := locate stdCal d.src tgt (d.segOf c) (hourOf c)
+  s!"{l.tSegTime}/{l.tFamily}"
 
 def sortNat3 (l : List (Nat × Nat × Nat)) : List (Nat × Nat × Nat) :=
   (l.toArray.qsort (fun a b => a.1 < b.1 || (a.1 == b.1 && (a.2.1 < b.2.1 || (a.2.1 == b.2.1 && a.2.2 < b.2.2))))).toList
@@ -84,7 +95,7 @@ def showLoc (l : Loc) (r : R) : String :=
   s!"{l.srcFamStart} {l.tSegTime} {l.tFamily} {l.tFamStart} base={r.baseSlot} ratio={r.intervalRatio}"
 
 /-- combined view of the committed target files of interval `i` -/
-def viewOf (tf : List (Iv × FileData)) (i : Iv) : List ((Nat × Nat × Nat × Nat) × (Nat × Int × Nat)) :=
+def viewOf (tf : List ((Iv × String) × FileData)) (i : Iv × String) : List ((Nat × Nat × Nat × Nat) × (Nat × Int × Nat)) :=
   let cells : List (Nat × Cell) := (tf.filter (·.1 = i)).flatMap (fun (_, fd) =>
     fd.flatMap (fun b => b.cells.map (fun c => (b.metric, c))))
   cells.foldl (fun acc (m, c) =>
@@ -108,21 +119,21 @@ def step (d : DS) (ws : List String) : DS × String :=
   if d.dead then (d, "dead") else
   match ws with
   | "cfg" :: src :: day :: _hs :: "|" :: tgts =>
-    match src.toInt?, day.toInt?, tgts.mapM String.toNat? with
-    | some s, some dy, some ts =>
-      if dy ≥ 0 ∧ stdCal.okAtB dy then
-        ({ src := s, day := dy, tgts := ts }, "ok")
+    match src.toInt?, (day.splitOn ",").mapM String.toInt?, tgts.mapM String.toNat? with
+    | some s, some (dy :: dys), some ts =>
+      if (dy :: dys).all (fun x => decide (x ≥ 0) && stdCal.okAtB x) then
+        ({ src := s, day := dy, days := dy :: dys, tgts := ts }, "ok")
       else ({}, "bad-calendar")
     | _, _, _ => (d, "bad-op")
   | ["loc", h, tgt] =>
-    match h.toInt?, tgt.toInt? with
+    match h.toNat?, tgt.toInt? with
     | some h, some t =>
-      (d, showLoc (locate stdCal d.src t (d.day * oneDay) h) (mkR stdCal d.src t (d.day * oneDay) h))
+      (d, showLoc (locate stdCal d.src t (d.segOf h) (hourOf h)) (d.rOf h t))
     | _, _ => (d, "bad-op")
   | "flush" :: h :: file :: ne :: "|" :: toks =>
     match h.toNat?, file.toNat?, ne.toNat?, toks.mapM parseBlock with
     | some h, some f, some ne, some blocks =>
-      if d.st.next ≤ f then
+      if d.st.registered.all (fun p => decide (p.1 ≠ (h, f))) && d.files.all (fun p => decide (p.1 ≠ (h, f))) then
         let r := Rec.flush (h, f) (ne ≠ 0) d.tgts
         let σ := d.st.step (.flush h f (ne ≠ 0) d.tgts)
         ({ d with st := σ, files := d.files ++ [((h, f), blocks)] }, s!"rec={showRec r} {showState σ}")
@@ -139,12 +150,12 @@ def step (d : DS) (ws : List String) : DS × String :=
         let all := rollupRecs d.st h ivs (fun i => decide (i ∈ av)) dvs
         let recs := match cut with | none => all | some n => all.take n
         -- data: outputs of the committed merge records
-        let outs : Option (List (Iv × FileData)) := recs.foldl (fun acc r =>
+        let outs : Option (List ((Iv × String) × FileData)) := recs.foldl (fun acc r =>
           match acc, r with
           | some l, .merge i inputs =>
             let fds := inputs.filterMap (fun k => (d.files.find? (·.1 = k)).map (·.2))
-            match mergeFiles Generated.C04.placementByTimestamp (mkR stdCal d.src i (d.day * oneDay) h) fds with
-            | some o => some (l ++ [(i, o)])
+            match mergeFiles Generated.C04.placementByTimestamp (d.rOf h i) fds with
+            | some o => some (l ++ [((i, d.locKey h i), o)])
             | none => none
           | acc, _ => acc) (some [])
         match outs with
@@ -161,12 +172,12 @@ def step (d : DS) (ws : List String) : DS × String :=
       (kv? avail "avail").bind parseNatList with
     | some h, some ivs, some dvs, some av =>
       let recs := rollupRecs d.st h ivs (fun i => decide (i ∈ av)) dvs
-      let outs : Option (List (Iv × FileData)) := recs.foldl (fun acc r =>
+      let outs : Option (List ((Iv × String) × FileData)) := recs.foldl (fun acc r =>
         match acc, r with
         | some l, .merge i inputs =>
           let fds := inputs.filterMap (fun k => (d.files.find? (·.1 = k)).map (·.2))
-          match mergeFiles Generated.C04.placementByTimestamp (mkR stdCal d.src i (d.day * oneDay) h) fds with
-          | some o => some (l ++ [(i, o)])
+          match mergeFiles Generated.C04.placementByTimestamp (d.rOf h i) fds with
+          | some o => some (l ++ [((i, d.locKey h i), o)])
           | none => none
         | acc, _ => acc) (some [])
       match outs with
@@ -183,11 +194,11 @@ def step (d : DS) (ws : List String) : DS × String :=
   | ["read", tgt] =>
     match tgt.toNat? with
     | some t =>
-      let v := viewOf d.tfiles t
-      if v.isEmpty then (d, "empty") else
-      let hs := d.st.registered.map (·.1.1)
-      let l := locate stdCal d.src t (d.day * oneDay) (hs.headD 0)
-      (d, s!"{l.tSegTime}/{l.tFamily} {showView v}")
+      let keys := ((d.tfiles.filter (·.1.1 = t)).map (·.1.2)).eraseDups
+      let groups := (keys.toArray.qsort (· < ·)).toList.filterMap (fun k =>
+        let v := viewOf d.tfiles (t, k)
+        if v.isEmpty then none else some s!"{k} {showView v}")
+      if groups.isEmpty then (d, "empty") else (d, " | ".intercalate groups)
     | none => (d, "bad-op")
   | "arith" :: src :: tgt :: seg :: ft :: "|" :: slots =>
     match src.toInt?, tgt.toInt?, seg.toInt?, ft.toInt?, slots.mapM String.toNat? with
